@@ -997,6 +997,16 @@ def eval_expr(fn, ref, env, depth=0):
         if ins.op == 'ashr':
             return a >> b
         return {'and': a & b, 'or': a | b, 'xor': a ^ b}[ins.op]
+    if ins.op in ('udiv', 'urem', 'lshr'):
+        a, b = ev(ops[0]), ev(ops[1])
+        if a is None or b is None:
+            return None
+        ua, ub = a & ((1 << w) - 1), b & ((1 << w) - 1)
+        if ins.op == 'lshr':
+            return wrap(ua >> ub)
+        if ub == 0:
+            return None
+        return wrap(ua // ub if ins.op == 'udiv' else ua % ub)
     if ins.op in ('sext', 'trunc', 'freeze', 'bitcast'):
         a = ev(ops[0])
         return None if a is None else wrap(a)
